@@ -156,7 +156,7 @@ impl Session {
         }
     }
 
-    fn emit(&mut self, sink: &mut Sink, req: String, resp: String) {
+    pub fn emit(&mut self, sink: &mut Sink, req: String, resp: String) {
         self.history.push(format!("{} -> {}", req, resp));
         sink.emit(format!("forest {}", req), resp);
     }
@@ -650,6 +650,7 @@ pub fn run(seed: u64, count: usize, tier: &str, sink: &mut Sink) {
 pub fn exec_stdin(sink: &mut Sink) {
     use std::io::BufRead;
     let mut s = Session::new();
+    let mut ids = crate::suite_fidx::Ids::default();
     let stdin = std::io::stdin();
     for line in stdin.lock().lines() {
         let line = line.unwrap();
@@ -658,7 +659,7 @@ pub fn exec_stdin(sink: &mut Sink) {
             continue;
         }
         let req = req.strip_prefix("forest ").unwrap_or(&req).to_string();
-        if guarded(|| s.exec(sink, &req)).is_none() {
+        if guarded(|| crate::suite_fidx::exec_ext(&mut s, sink, &mut ids, &req)).is_none() {
             sink.emit(format!("forest {}", req), "harness-panic".into());
             break;
         }
